@@ -1,6 +1,7 @@
 //! Correspondence harness: runs the real rust-debruijn code (path dependency on /repo's working tree)
 //! on generated cases and writes `op input result` lines for the extracted Coq model to check.
 //! usage: dbg-harness <property> <seed> <quick|thorough> <shard> <nshards> <outfile>
+mod c05;
 mod c11;
 mod kmers;
 mod val;
@@ -37,6 +38,8 @@ fn main() {
     match prop {
         "C10" => kmers::c10(&mut out, &mut rng, &tier),
         "C11" => c11::c11(&mut out, &mut rng, &tier),
+        "C05" => c05::c05(&mut out, &mut rng, &tier),
+        "C06" => c05::c06_filter(&mut out, &mut rng, &tier),
         _ => {
             eprintln!("unknown property {}", prop);
             std::process::exit(2);
